@@ -1,6 +1,6 @@
 (** Executable comparison and property oracle used by the C10 correspondence check (kernel
     evaluation on the observations emitted by `vh siodecode`). *)
-From SioV Require Import Base.GoSem Sio.Header Sio.Decoder.
+From SioV Require Import Base.GoSem Sio.Header Sio.Decoder Sio.DecoderDispatch.
 Local Open Scope Z_scope.
 
 Inductive oclass := OPanic | OErr | OMore | OFin.
@@ -10,8 +10,6 @@ Definition oclass_eqb (a b : oclass) : bool :=
   | OPanic, OPanic | OErr, OErr | OMore, OMore | OFin, OFin => true
   | _, _ => false
   end.
-
-Definition bytes_eqb (a b : bytes) : bool := list_eqb N.eqb a b.
 
 Definition opt_eqb {A} (eqb : A -> A -> bool) (a b : option A) : bool :=
   match a, b with
@@ -63,15 +61,6 @@ Fixpoint last_finished (os : list outcome) : option recon :=
   | _ :: os' => last_finished os'
   end.
 
-(** Attachments placed into a decoded value, in walk order. *)
-Fixpoint bins_of (v : value) : list bytes :=
-  match v with
-  | VOther => []
-  | VBin b => [b]
-  | VSeq l => (fix go (l : list value) : list bytes :=
-                 match l with [] => [] | x :: l' => bins_of x ++ go l' end) l
-  end.
-
 Definition model_run (c : dcase) : res (option recon * list outcome) :=
   run parse_uint_go (names_oracle (c_names c)) (c_maxatt c) None (c_frames c).
 
@@ -118,8 +107,37 @@ Fixpoint outs_wf (os : list oclass) : bool :=
   | o :: os' => oclass_eqb o OMore && outs_wf os'
   end.
 
+(** The count a header announces, read off the wire without any machine arithmetic: the decimal
+    number between the type byte and the first '-' (binary types only). *)
+Definition announced (f : bytes) : option N :=
+  match f with
+  | c :: rest =>
+    if is_binary (c - 48)%N then
+      match index_byte 45 rest with
+      | Some i => let d := firstn i rest in
+                  match d with [] => None | _ => if forallb is_digit d then Some (dec_val 0 d) else None end
+      | None => None
+      end
+    else None
+  | [] => None
+  end.
+
+(** A packet still pending after the last frame fed is legitimate only if the announced count is
+    one a Go int can count (below 2^63), exceeds the frames received so far, and respects the
+    configured limit - otherwise the peer has wedged the decoder. *)
+Definition pending_legit (c : dcase) : bool :=
+  match last (c_outs c) OErr, c_frames c with
+  | OMore, f :: fs =>
+    match announced f with
+    | Some n => (n <? two63)%N && (N.of_nat (length fs) <? n)%N
+                && ((c_maxatt c <=? 0) || (Z.of_N n <=? c_maxatt c))
+    | None => false
+    end
+  | _, _ => true
+  end.
+
 Definition oracle (c : dcase) : bool :=
-  outs_wf (c_outs c)
+  outs_wf (c_outs c) && pending_legit c
   && Nat.eqb (length (c_outs c)) (length (c_frames c))
   && match c_dec c with Some OPanic => false | Some OMore => false | _ => true end
   && match c_hdr c with
@@ -130,3 +148,55 @@ Definition oracle (c : dcase) : bool :=
        && ((c_maxatt c <=? 0) || (att <=? c_maxatt c))
      end
   && forallb (fun b => existsb (bytes_eqb b) (tl (c_frames c))) (c_bins c).
+
+(** * Live rig rows: a raw peer joined "/" on a real server and sent the frames; the server's
+      reaction is compared with the dispatch model run on the decoder-level observations of the
+      same frames.  [lc_nt]: parameters of the one handler registered for the event name. *)
+Record lcase := mkLive {
+  lc_dec     : dcase;        (* same frames through Parser.Add + decode, recorded answers *)
+  lc_name    : bytes;        (* event name the class addresses (handlers exist exactly for it) *)
+  lc_handler : bool;         (* observed: handler entered *)
+  lc_errh    : bool;         (* observed: socket error handler invoked *)
+  lc_closed  : bool;         (* observed: server closed the connection *)
+  lc_healthy : bool;         (* observed: another connection still completes an ack round trip *)
+  lc_later   : bool          (* observed: a later connection can be opened and used *)
+}.
+
+Definition live_sock (c : lcase) : sock :=
+  mkSock [47%N]
+         (fun name => if bytes_eqb name (lc_name c) then [c_nt (lc_dec c)] else [])
+         (fun _ => None).
+
+Definition model_reports (c : lcase) : res (list report) :=
+  on_messages parse_uint_go (names_oracle (c_names (lc_dec c))) (um_oracle (c_um (lc_dec c)))
+              (c_maxatt (lc_dec c)) None [live_sock c] (c_frames (lc_dec c)).
+
+Definition has_deliver (l : list report) : bool :=
+  existsb (fun r => match r with RepDeliver _ _ _ | RepAck _ _ _ => true | _ => false end) l.
+Definition has_error (l : list report) : bool :=
+  existsb (fun r => match r with RepError _ => true | _ => false end) l.
+
+(** Correspondence of the dispatch layer: the server reacted as the model says. *)
+Definition live_agree (c : lcase) : bool :=
+  agree (lc_dec c)
+  && match model_reports c with
+     | Ok reps =>
+       Bool.eqb (has_deliver reps) (lc_handler c)
+       && Bool.eqb (has_error reps) (lc_errh c)
+       && Bool.eqb (closes reps) (lc_closed c)
+     | _ => false
+     end.
+
+(** The property on the live observation alone: the process and its other / later connections
+    keep working, and frames the decoder rejects (Add error, or decode error for the handler)
+    are reported - connection closed or error handlers invoked - and never reach the handler. *)
+Definition live_oracle (c : lcase) : bool :=
+  oracle (lc_dec c)
+  && lc_healthy c && lc_later c
+  && (let d := lc_dec c in
+      let rejected := match last (c_outs d) OErr, c_dec d with
+                      | OErr, _ => true
+                      | _, Some OErr => true
+                      | _, _ => false
+                      end in
+      if rejected then (lc_closed c || lc_errh c) && negb (lc_handler c) else true).
